@@ -765,6 +765,26 @@ func (p *Parser) checkStrictEmptySemicolon() error {
 	return nil
 }
 
+// enterNesting accounts for one more level of syntactic nesting on a recursive
+// parse path that does not pass through parseExpression (which keeps the same
+// counter). It returns the recursion-depth error once MaxRecursionDepth is
+// exceeded; a successful call must be paired with leaveNesting.
+func (p *Parser) enterNesting() error {
+	if p.depth+1 > MaxRecursionDepth {
+		return goerrors.RecursionDepthLimitError(
+			p.depth+1,
+			MaxRecursionDepth,
+			models.Location{Line: 0, Column: 0},
+			"",
+		)
+	}
+	p.depth++
+	return nil
+}
+
+// leaveNesting undoes a successful enterNesting.
+func (p *Parser) leaveNesting() { p.depth-- }
+
 // advance moves to the next token.
 //
 // Token slices built by hand may lack the trailing EOF token the tokenizer
